@@ -28,7 +28,7 @@ THOROUGH_S = 600
 BATCH = 2
 MIN_RUNS = 8
 RULE = ('one evaluation = one simulated run: a victim client performs a short setup and then ONE data operation of Cache / '
-        'FanoutCache / DjangoCache / Deque / Index, or one complete use of a recipe (Lock, RLock, BoundedSemaphore, Averager, memoize, memoize_stampede, throttle, barrier - all of which promise to wait) (retry on or off, inline or file-backed value, statistics / LRU / LFU settings '
+        'FanoutCache / DjangoCache / Deque / Index, or one complete use of a recipe (Lock, RLock, BoundedSemaphore, Averager, memoize, memoize_stampede, throttle, barrier - all of which promise to wait), or the opening of a second handle on the directory (also with one statement of the open answered "database is locked" once, enumerated over its statements: the open fails loudly or finds the stored settings, and a lookup whose value file another process replaces at the lock point) (retry on or off, inline or file-backed value, statistics / LRU / LFU settings '
         'that turn reads into writes) while a holder takes the write lock of the relevant database at seam event k of that call '
         '(k enumerated over all events of the call in the thorough tier, sampled in the quick tier; k=1 is "before the call") and '
         'keeps it for a virtual duration shorter or longer than the victim\'s timeout; the outcome is compared with the same call '
